@@ -82,6 +82,78 @@ func NestedInParens(p *load.Prog, r *oblig.Report, rule string, funcs []*ssa.Fun
 		names = append(names, n)
 	}
 	sort.Strings(names)
+	// opTargets: the operator printers a callee expression may denote — the function itself, a variable assigned
+	// from several of them (phi), or the result of a selector helper that returns one of them (or nil)
+	var opTargets func(v ssa.Value, depth int) map[string]bool
+	selectorOf := func(f *ssa.Function, depth int) map[string]bool {
+		out := map[string]bool{}
+		if f == nil || f.Pkg != sub.Pkg || len(f.Blocks) == 0 || depth > 3 {
+			return out
+		}
+		for _, b := range f.Blocks {
+			if ret, ok := b.Instrs[len(b.Instrs)-1].(*ssa.Return); ok {
+				for _, rv := range ret.Results {
+					for n := range opTargets(rv, depth+1) {
+						out[n] = true
+					}
+				}
+			}
+		}
+		return out
+	}
+	opTargets = func(v ssa.Value, depth int) map[string]bool {
+		out := map[string]bool{}
+		if depth > 6 {
+			return out
+		}
+		switch x := v.(type) {
+		case *ssa.Function:
+			for n, f := range ops {
+				if x == f {
+					out[n] = true
+				}
+			}
+		case *ssa.ChangeType:
+			return opTargets(x.X, depth+1)
+		case *ssa.Phi:
+			for _, e := range x.Edges {
+				for n := range opTargets(e, depth+1) {
+					out[n] = true
+				}
+			}
+		case *ssa.Call:
+			if _, isFn := x.Type().Underlying().(*types.Signature); isFn {
+				return selectorOf(x.Common().StaticCallee(), depth)
+			}
+		}
+		return out
+	}
+	// selectors: helpers of the package that hand out operator printers as function values
+	selectors := map[*ssa.Function]bool{}
+	for _, f := range funcs {
+		if f != sub && f != top && f.Signature.Results().Len() == 1 {
+			if _, isFn := f.Signature.Results().At(0).Type().Underlying().(*types.Signature); isFn && len(selectorOf(f, 0)) > 0 {
+				selectors[f] = true
+			}
+		}
+	}
+	dynCallers := map[string]map[*ssa.Function]bool{}
+	for _, f := range funcs {
+		for _, b := range f.Blocks {
+			for _, in := range b.Instrs {
+				call, ok := in.(ssa.CallInstruction)
+				if !ok || call.Common().IsInvoke() || call.Common().StaticCallee() != nil {
+					continue
+				}
+				for n := range opTargets(call.Common().Value, 0) {
+					if dynCallers[n] == nil {
+						dynCallers[n] = map[*ssa.Function]bool{}
+					}
+					dynCallers[n][f] = true
+				}
+			}
+		}
+	}
 	for _, n := range names {
 		f := ops[n]
 		construct := "operator-printer-callers:" + n
@@ -91,10 +163,28 @@ func NestedInParens(p *load.Prog, r *oblig.Report, rule string, funcs []*ssa.Fun
 				bad = load.FuncName(caller)
 			}
 		}
-		for _, user := range usesAsValue(funcs, f) {
-			if user != top && user != sub {
-				bad = load.FuncName(user) + " (as a function value)"
+		for caller := range dynCallers[n] {
+			if caller != sub && caller != top {
+				bad = load.FuncName(caller) + " (through a function value)"
 			}
+		}
+		for _, user := range usesAsValue(funcs, f) {
+			if user == top || user == sub {
+				continue
+			}
+			if selectors[user] {
+				// a selector helper: whoever receives its result must be one of the two printers
+				for caller := range callersOf(funcs, user) {
+					if caller != sub && caller != top {
+						bad = load.FuncName(caller) + " (through the selector " + load.FuncName(user) + ")"
+					}
+				}
+				for _, u2 := range usesAsValue(funcs, user) {
+					bad = load.FuncName(u2) + " (the selector " + load.FuncName(user) + " as a function value)"
+				}
+				continue
+			}
+			bad = load.FuncName(user) + " (as a function value)"
 		}
 		if bad == "" {
 			r.OK(rule, construct, p.Pos(f.Pos()), "who-may-call", "called only from parseSubRelation (parenthesised) and parseRelation (top level)")
@@ -104,35 +194,40 @@ func NestedInParens(p *load.Prog, r *oblig.Report, rule string, funcs []*ssa.Fun
 	}
 	// in parseSubRelation: wherever the text of an operator printer appears in a returned string it stands
 	// between "(" and ")" (Sprintf, concatenation or a wrapping helper — all read as templates)
-	isOpText := func(v ssa.Value) string {
+	isOpText := func(v ssa.Value) []string {
 		if ex, ok := v.(*ssa.Extract); ok && ex.Index == 0 {
 			v = ex.Tuple
 		}
+		var out []string
 		if c, ok := v.(*ssa.Call); ok {
 			for n, f := range ops {
 				if c.Common().StaticCallee() == f {
-					return n
+					out = append(out, n)
+				}
+			}
+			if c.Common().StaticCallee() == nil && !c.Common().IsInvoke() {
+				for n := range opTargets(c.Common().Value, 0) {
+					out = append(out, n)
 				}
 			}
 		}
-		return ""
+		sort.Strings(out)
+		return out
 	}
 	wrapped, bare := map[string]bool{}, map[string]string{}
 	for _, t := range ReturnTemplates(sub, ops["parseUnion"], ops["parseIntersection"], ops["parseDifference"]) {
 		for i, pc := range t {
-			n := ""
-			if pc.Val != nil {
-				n = isOpText(pc.Val)
-			}
-			if n == "" {
+			if pc.Val == nil {
 				continue
 			}
-			before := i > 0 && t[i-1].Val == nil && strings.HasSuffix(t[i-1].Lit, "(")
-			after := i+1 < len(t) && t[i+1].Val == nil && strings.HasPrefix(t[i+1].Lit, ")")
-			if before && after {
-				wrapped[n] = true
-			} else {
-				bare[n] = TemplateString(t)
+			for _, n := range isOpText(pc.Val) {
+				before := i > 0 && t[i-1].Val == nil && strings.HasSuffix(t[i-1].Lit, "(")
+				after := i+1 < len(t) && t[i+1].Val == nil && strings.HasPrefix(t[i+1].Lit, ")")
+				if before && after {
+					wrapped[n] = true
+				} else {
+					bare[n] = TemplateString(t)
+				}
 			}
 		}
 	}
@@ -306,7 +401,25 @@ func ValidatorGuard(p *load.Prog, r *oblig.Report, rule string) {
 		return ok && c.Common().StaticCallee() != nil && c.Common().StaticCallee().Name() == "occurrences"
 	}
 	wrongArg := ""
+	type penv map[*ssa.Parameter]ssa.Value
+	var env penv // bindings of the helper being evaluated (nil in parseRelation itself)
+	resolveArg := func(v ssa.Value) ssa.Value {
+		for i := 0; i < 4; i++ {
+			q, ok := v.(*ssa.Parameter)
+			if !ok || env == nil {
+				break
+			}
+			b, has := env[q]
+			if !has {
+				break
+			}
+			v = b
+		}
+		return v
+	}
+	var explore func(f *ssa.Function, occ int, first bool, onReturn func(*ssa.Return, *ssa.BasicBlock, *ssa.BasicBlock))
 	var eval func(v ssa.Value, occ int, first bool, prev, cur *ssa.BasicBlock, depth int) (bool, bool)
+	helperDepth := 0
 	eval = func(v ssa.Value, occ int, first bool, prev, cur *ssa.BasicBlock, depth int) (bool, bool) {
 		if depth > 8 {
 			return false, false
@@ -368,10 +481,41 @@ func ValidatorGuard(p *load.Prog, r *oblig.Report, rule string) {
 			}
 		case *ssa.Call:
 			if cal := x.Common().StaticCallee(); cal != nil && cal.Name() == "isFirstPosition" {
-				if len(x.Common().Args) == 2 && relParam != nil && x.Common().Args[1] != ssa.Value(relParam) {
-					wrongArg = AccessPath(x.Common().Args[1])
+				if len(x.Common().Args) == 2 && relParam != nil && resolveArg(x.Common().Args[1]) != ssa.Value(relParam) {
+					wrongArg = AccessPath(resolveArg(x.Common().Args[1]))
 				}
 				return first, true
+			}
+			// a boolean helper of the package (validator.isExpressible(root)): the values it can return under this valuation
+			if cal := x.Common().StaticCallee(); cal != nil && cal.Pkg == fn.Pkg && len(cal.Blocks) > 0 && helperDepth < 3 &&
+				cal.Signature.Results().Len() == 1 && types.Identical(cal.Signature.Results().At(0).Type().Underlying(), types.Typ[types.Bool]) {
+				saved := env
+				ne := penv{}
+				for i, q := range cal.Params {
+					if i < len(x.Common().Args) {
+						ne[q] = resolveArg(x.Common().Args[i])
+					}
+				}
+				env = ne
+				helperDepth++
+				canT, canF, unknown := false, false, false
+				explore(cal, occ, first, func(ret *ssa.Return, b, prev *ssa.BasicBlock) {
+					rv, known := eval(ret.Results[0], occ, first, prev, b, 0)
+					switch {
+					case !known:
+						unknown = true
+					case rv:
+						canT = true
+					default:
+						canF = true
+					}
+				})
+				helperDepth--
+				env = saved
+				if !unknown && canT != canF {
+					return canT, true
+				}
+				return false, false
 			}
 		case *ssa.Phi:
 			if x.Block() == cur && prev != nil {
@@ -387,23 +531,17 @@ func ValidatorGuard(p *load.Prog, r *oblig.Report, rule string) {
 	type vis struct {
 		b, prev *ssa.BasicBlock
 	}
-	reach := func(occ int, first bool) bool {
+	explore = func(f *ssa.Function, occ int, first bool, onReturn func(*ssa.Return, *ssa.BasicBlock, *ssa.BasicBlock)) {
 		seen := map[vis]bool{}
-		found := false
 		var walk func(b, prev *ssa.BasicBlock)
 		walk = func(b, prev *ssa.BasicBlock) {
-			if seen[vis{b, prev}] || found {
+			if seen[vis{b, prev}] {
 				return
 			}
 			seen[vis{b, prev}] = true
 			switch t := b.Instrs[len(b.Instrs)-1].(type) {
 			case *ssa.Return:
-				ei := returnsError(fn)
-				if ei >= 0 && ei < len(t.Results) {
-					if c, ok := t.Results[ei].(*ssa.Const); ok && c.IsNil() && !isConstString(t.Results[0], "") {
-						found = true
-					}
-				}
+				onReturn(t, b, prev)
 			case *ssa.If:
 				res, known := eval(t.Cond, occ, first, prev, b, 0)
 				if !known || res {
@@ -418,7 +556,18 @@ func ValidatorGuard(p *load.Prog, r *oblig.Report, rule string) {
 				}
 			}
 		}
-		walk(fn.Blocks[0], nil)
+		walk(f.Blocks[0], nil)
+	}
+	reach := func(occ int, first bool) bool {
+		found := false
+		ei := returnsError(fn)
+		explore(fn, occ, first, func(t *ssa.Return, _, _ *ssa.BasicBlock) {
+			if ei >= 0 && ei < len(t.Results) {
+				if c, ok := t.Results[ei].(*ssa.Const); ok && c.IsNil() && !isConstString(t.Results[0], "") {
+					found = true
+				}
+			}
+		})
 		return found
 	}
 	var allowed, forbidden []string
@@ -674,11 +823,56 @@ func listExpr(v ssa.Value, x ssa.Value, depth int) ([]listSeg, string) {
 				return []listSeg{{"x[:p]", y.High}}, ""
 			case "low=p+1 high=nil":
 				return []listSeg{{"x[p+1:]", y.Low.(*ssa.BinOp).X}}, ""
+			case "low=p high=p+1":
+				if y.High.(*ssa.BinOp).X == y.Low {
+					return []listSeg{{"x[p]", y.Low}}, ""
+				}
 			}
 			return []listSeg{{"x[" + d + "]", nil}}, ""
 		}
 		return nil, "a sub-slice of " + stripUnique(AccessPath(y.X))
 	case *ssa.Call:
+		// slices.Concat(a, b, c): a fresh list holding the segments in order
+		if cal := y.Common().StaticCallee(); cal != nil && cal.Origin() != nil && cal.Origin().Pkg != nil && cal.Origin().Pkg.Pkg.Path() == "slices" && cal.Origin().Name() == "Concat" && len(y.Common().Args) == 1 {
+			sl, isSl := y.Common().Args[0].(*ssa.Slice)
+			if !isSl {
+				return nil, "slices.Concat of a computed list of lists"
+			}
+			al, isAl := sl.X.(*ssa.Alloc)
+			if !isAl || al.Referrers() == nil {
+				return nil, "slices.Concat of a computed list of lists"
+			}
+			arr, isArr := al.Type().Underlying().(*types.Pointer).Elem().Underlying().(*types.Array)
+			if !isArr {
+				return nil, "unsupported literal"
+			}
+			parts := make([][]listSeg, arr.Len())
+			for _, ref := range *al.Referrers() {
+				ia, ok := ref.(*ssa.IndexAddr)
+				if !ok || ia.Referrers() == nil {
+					continue
+				}
+				ic, ok := ia.Index.(*ssa.Const)
+				if !ok || ic.Int64() >= int64(len(parts)) {
+					return nil, "unsupported literal"
+				}
+				for _, r2 := range *ia.Referrers() {
+					if st, ok := r2.(*ssa.Store); ok {
+						var why string
+						if st.Val == x {
+							parts[ic.Int64()] = []listSeg{{"x[:]", nil}}
+						} else if parts[ic.Int64()], why = listExpr(st.Val, x, depth+1); why != "" {
+							return nil, why
+						}
+					}
+				}
+			}
+			var out []listSeg
+			for _, ps := range parts {
+				out = append(out, ps...)
+			}
+			return out, ""
+		}
 		if c, ok := appendCall(y); ok {
 			base, why := listExpr(c.Common().Args[0], x, depth+1)
 			if why != "" {
